@@ -236,11 +236,13 @@ Proof.
     unfold may_substitute in H. destruct (subst_on st).
     + destruct (substitute false (vars st) cmd) as [cmd'|m|] eqn:M;
         [|exfalso; eapply Hsub; eauto|inversion H; subst; exact I].
+      destruct (is_background cmd'); [inversion H; subst; exact I|].
       unfold sys_request in H. inversion H; subst.
       pose proof (nth_Forall sys_ok (sys_answers sc) (sys_default sc) (N.to_nat (sys_calls w)) Ha Hd) as Hn.
       destruct (nth (N.to_nat (sys_calls w)) (sys_answers sc) (sys_default sc)) as [[|] out|];
         cbn [sys_ok] in Hn; try contradiction. exact I.
-    + unfold sys_request in H. inversion H; subst.
+    + destruct (is_background cmd); [inversion H; subst; exact I|].
+      unfold sys_request in H. inversion H; subst.
       pose proof (nth_Forall sys_ok (sys_answers sc) (sys_default sc) (N.to_nat (sys_calls w)) Ha Hd) as Hn.
       destruct (nth (N.to_nat (sys_calls w)) (sys_answers sc) (sys_default sc)) as [[|] out|];
         cbn [sys_ok] in Hn; try contradiction. exact I.
